@@ -526,6 +526,10 @@ class SimSolver:
                 continue
             if isinstance(value, bool):
                 out.append(var if value else _z3.Not(var))
+            elif isinstance(value, dict):
+                # {"lt": v} / {"gt": v} / {"ne": v}: examiner questions
+                for op, val in value.items():
+                    out.append({"lt": var < val, "gt": var > val, "le": var <= val, "ge": var >= val, "ne": var != val}[op])
             else:
                 out.append(var == int(value))
         return out
